@@ -189,7 +189,13 @@ def _lib_warn(ex, args, kwargs, s):
     yield s, Val(smt.NONE, NONE_T)
 
 
+def _lib_time(ex, args, kwargs, s):
+    """time.time(): an opaque number; does not raise."""
+    yield s, Val(smt.fresh_v("time"), ANY)
+
+
 LIBRARY = {
+    "time.time": _lib_time,
     "warnings.warn": _lib_warn,
     "_warnings.warn": _lib_warn,
     "contracts.specrt.forall_keys": _spec_forall_keys,
